@@ -1,1 +1,120 @@
-From GV Require Import Pool.Model Pool.Observe Pool.Monitors.
+From GV Require Import Pool.Model Pool.Observe Pool.Monitors Pool.Reduce Pool.LegalRun Pool.PickFacts Pool.InvC09.
+
+(* C09: with bind_pick_strategy = ROUND_ROBIN a BIND call on a picker with a
+   non-empty snapshot advances the 32-bit cursor rrRefId by one (mod 2^32) and is
+   assigned the slot  cursor mod #slots;  it returns that slot's connection at
+   once iff the connection is READY or the call's context has ended, and waits
+   otherwise; no other operation moves the cursor; a waiting call that returns is
+   handed its slot's connection, and only once it is READY or the context ended.
+   For every map-iteration oracle.  Guard: the history is harness-legal (no
+   operation is answered RBadOp: the harness only refers to pickers / calls that
+   exist and never completes a call that is still waiting). *)
+Theorem C09_holds : forall raw ops,
+  legal raw ops -> monitor P09 raw (observe init_bal) (run raw init_bal ops) = true.
+Proof. exact C09_holds_proof. Qed.
+Print Assumptions C09_holds.
+
+(* the cursor after j round-robin BIND calls *)
+Theorem C09_rr_cursor : forall (j : nat) (c : Z),
+  (0 <= c < W32)%Z -> Nat.iter j (fun x => ((x + 1) mod W32)%Z) c = ((c + Z.of_nat j) mod W32)%Z.
+Proof. exact rr_cursor. Qed.
+Print Assumptions C09_rr_cursor.
+
+(* ... on the model, for every history (legal or not): rr_picks counts the BIND
+   calls that get past the empty-snapshot test under ROUND_ROBIN *)
+Theorem C09_rr_cursor_run : forall raw ops,
+  b_rr (run_state raw init_bal ops) = ((W32 - 1 + Z.of_nat (rr_picks raw init_bal ops)) mod W32)%Z.
+Proof. exact rr_cursor_init. Qed.
+Print Assumptions C09_rr_cursor_run.
+
+(* any n*k consecutive cursor values, starting anywhere, put exactly k calls on
+   each of the n slots -- provided the 32-bit cursor does not wrap inside the window *)
+Theorem C09_rr_window_fair : forall (n k : nat) (c r : Z),
+  (0 < n)%nat -> (0 <= c)%Z -> (c + Z.of_nat (n * k) < W32)%Z -> (0 <= r < Z.of_nat n)%Z ->
+  count_occ Z.eq_dec (map (fun j => (((c + Z.of_nat j) mod W32) mod Z.of_nat n)%Z) (seq 0 (n * k))) r = k.
+Proof. exact rr_window_fair. Qed.
+Print Assumptions C09_rr_window_fair.
+
+(* known finding RR1: across the wrap the window is uneven for three slots (2^32 mod 3 = 1) *)
+Example C09_rr_window_fair_refuted :
+  (W32 mod 3 <> 0)%Z /\
+  map (fun j => (((W32 - 2 + Z.of_nat j) mod W32) mod 3)%Z) (seq 0 3) = [2; 0; 0]%Z /\
+  count_occ Z.eq_dec (map (fun j => (((W32 - 2 + Z.of_nat j) mod W32) mod 3)%Z) (seq 0 (3 * 1))) 0%Z = 2%nat /\
+  count_occ Z.eq_dec (map (fun j => (((W32 - 2 + Z.of_nat j) mod W32) mod 3)%Z) (seq 0 (3 * 1))) 1%Z = 0%nat.
+Proof. exact rr_window_fair_refuted. Qed.
+
+(* RR1 on the model: three READY slots, cursor preset two calls before the wrap
+   (only reachable after 2^32 - 2 BIND calls): the next three BIND calls go to
+   slots 2, 0, 0 *)
+Example c09_rr1_on_model :
+  let raw := Some (mkConfig 3 4 100 false 0 0 true [(1%N, mkMcfg BIND true)]) in
+  let s0 := run_state raw init_bal
+              [(OpResolver 1 CfgVal, []); (OpConnState 0 Ready, []); (OpConnState 1 Ready, []);
+               (OpConnState 2 Ready, [])] in
+  let bind := (OpPick 2 1 true [] None false, @nil nat) in
+  map ev_ret (run raw (set_rr s0 (W32 - 3)) [bind; bind; bind]) = [RPicked 2; RPicked 0; RPicked 0].
+Proof. vm_compute. reflexivity. Qed.
+
+(* non-vacuity: ROUND_ROBIN over two channels; BIND calls on the current and on a
+   stale picker, a BOUND call in between (cursor untouched), one BIND call that
+   waits for its channel and returns when it becomes READY, one whose context has
+   ended and returns at once although its channel is not READY *)
+Example c09_history :
+  let raw := Some (mkConfig 2 4 1 false 0 0 true [(1%N, mkMcfg BIND true); (2%N, mkMcfg BOUND true)]) in
+  let ops := [(OpResolver 1 CfgVal, []); (OpConnState 0 Ready, []); (OpConnState 1 Ready, [1; 0]%nat);
+              (OpPick 1 1 true [] None false, []); (OpPick 1 1 true [] None false, []);
+              (OpPick 0 1 true [] None false, []); (OpConnState 1 Connecting, []);
+              (OpPick 1 1 true [] None false, []); (OpPick 2 2 true [] None false, []);
+              (OpPick 2 1 true [] (Some 7%Z) false, []); (OpAdvance 3, []); (OpDone 0 DOk [5%N], []);
+              (OpConnState 1 Ready, []); (OpAdvance 10, []); (OpDone 3 DOk [], []);
+              (OpConnState 1 Connecting, []); (OpPick 3 1 false [] None true, [])] in
+  map ev_ret (run raw init_bal ops) =
+    [RNone; RNone; RNone; RPicked 0; RPicked 1; RPicked 0; RNone; RBlocked; RNoSubConn; RPicked 0; RNone; RNone;
+     RNone; RNone; RNone; RNone; RPicked 1] /\
+  map ev_ub (run raw init_bal ops) =
+    [[]; []; []; []; []; []; []; []; []; []; []; []; [(3%nat, 1%N)]; []; []; []; []] /\
+  map (fun s => b_rr s) (run_states raw init_bal ops) =
+    [4294967295; 4294967295; 4294967295; 4294967295; 0; 1; 2; 2; 3; 3; 4; 4; 4; 4; 4; 4; 4; 5]%Z /\
+  legalb raw ops = true /\
+  monitor P09 raw (observe init_bal) (run raw init_bal ops) = true.
+Proof. vm_compute. repeat split; reflexivity. Qed.
+
+(* the monitor rejects a BIND call placed on the wrong slot (cursor 0 over two slots is slot 0) *)
+Example c09_bad_wrong_slot :
+  let cfg := Some (mkConfig 2 4 1 false 0 0 true [(1%N, mkMcfg BIND true)]) in
+  let o1 := mkObs true 1 2 0 0 Ready [] [] [(0%N, Ready); (1%N, Ready)] [(0%N, 0%nat); (1%N, 1%nat)]
+                  [mkSlot 0 0 0 0 0 false 0; mkSlot 1 0 0 0 0 false 0]
+                  4294967295 [] false (PSnap [0; 1]%nat) 1 0 true in
+  let o2 := mkObs true 1 2 0 0 Ready [] [] [(0%N, Ready); (1%N, Ready)] [(0%N, 0%nat); (1%N, 1%nat)]
+                  [mkSlot 0 0 0 0 0 false 0; mkSlot 1 0 1 0 0 false 0]
+                  0 [] false (PSnap [0; 1]%nat) 1 0 true in
+  mon_from P09 cfg (mkMstate [PSnap [0; 1]%nat] (Some (Ready, PSnap [0; 1]%nat)) [] [] [] [] false (Some cfg) 0) o1
+    [mkEvent (OpPick 0 1 true [] None false) [] (RPicked 1) [] (Some o2)] = false.
+Proof. vm_compute. reflexivity. Qed.
+
+(* ... a cursor that skips a value *)
+Example c09_bad_cursor_skips :
+  let cfg := Some (mkConfig 2 4 1 false 0 0 true [(1%N, mkMcfg BIND true)]) in
+  let o1 := mkObs true 1 2 0 0 Ready [] [] [(0%N, Ready); (1%N, Ready)] [(0%N, 0%nat); (1%N, 1%nat)]
+                  [mkSlot 0 0 0 0 0 false 0; mkSlot 1 0 0 0 0 false 0]
+                  4294967295 [] false (PSnap [0; 1]%nat) 1 0 true in
+  let o2 := mkObs true 1 2 0 0 Ready [] [] [(0%N, Ready); (1%N, Ready)] [(0%N, 0%nat); (1%N, 1%nat)]
+                  [mkSlot 0 0 0 0 0 false 0; mkSlot 1 0 1 0 0 false 0]
+                  1 [] false (PSnap [0; 1]%nat) 1 0 true in
+  mon_from P09 cfg (mkMstate [PSnap [0; 1]%nat] (Some (Ready, PSnap [0; 1]%nat)) [] [] [] [] false (Some cfg) 0) o1
+    [mkEvent (OpPick 0 1 true [] None false) [] (RPicked 1) [] (Some o2)] = false.
+Proof. vm_compute. reflexivity. Qed.
+
+(* ... and a waiting call released although its channel is not READY and its context is alive *)
+Example c09_bad_released_early :
+  let cfg := Some (mkConfig 2 4 1 false 0 0 true [(1%N, mkMcfg BIND true)]) in
+  let o1 := mkObs true 1 1 1 0 Ready [] [] [(0%N, Ready); (1%N, Connecting)] [(0%N, 0%nat); (1%N, 1%nat)]
+                  [mkSlot 0 0 0 0 0 false 0; mkSlot 1 0 0 0 0 false 0]
+                  1 [] false (PSnap [0%nat]) 1 0 true in
+  let o2 := mkObs true 1 1 1 0 Ready [] [] [(0%N, Ready); (1%N, Connecting)] [(0%N, 0%nat); (1%N, 1%nat)]
+                  [mkSlot 0 0 0 0 0 false 0; mkSlot 1 0 1 0 0 false 0]
+                  1 [] false (PSnap [0%nat]) 1 5 true in
+  mon_from P09 cfg (mkMstate [PSnap [0%nat]] (Some (Ready, PSnap [0%nat]))
+                             [mkMpick 1 BIND 0 true true None false 0 PBlocked] [] [] [] false (Some cfg) 0) o1
+    [mkEvent (OpAdvance 5) [] RNone [(0%nat, 1%N)] (Some o2)] = false.
+Proof. vm_compute. reflexivity. Qed.
